@@ -25,6 +25,7 @@ RULE = ('numeric Table B elements (quick: every 4th of version 33; thorough: all
         'list) x 8 operator contexts x values {grid, grid+-1/4 unit, half-way, 0, max, all-ones, +-1e-9, '
         'min-1, max+1, far beyond}; fixpoints on R-produced and sample messages; non-trivial = value off-grid, '
         'on a range boundary or beyond it; distinct by (element, context, value class); character values (\'\' / short / exact / blank / latin-1 / missing) in fields of 20, 32, 9, 3 (208YYY) and 4 (205YYY) octets')
+RULE += '; added with rounds 10-12: twins (differently configured instances given the same input first)'
 ASSUMPTIONS = ['fields wider than 40 bits with non-zero scale are skipped (float input cannot carry them)',
                'half-unit bound checked with slack 1e-9 units; half-way inputs may round either way',
                'any exception counts as refusal']
